@@ -81,3 +81,88 @@ example : Admissible 0x0801 [[1], [2, 2], [3]] ⟨⟨0x0801, 0, 0, 1, 0, 2, [], 
   .impossible _ rfl (Or.inl rfl)
 
 end JT.C05
+
+namespace JT.C05
+open JT JT.Frame JT.Parse
+
+/-! ### all TCP segmentations (C04 ∘ C05) -/
+
+/-- the completions `completeAll` appends are exactly the `deliveries` of the messages of that read, and the
+transfer table it returns is the one `deliveries` threads through — so processing read after read is processing the
+flat message list -/
+theorem completeAll_deliveries (now : Nat) : ∀ (ms : List PMsg) (recs : List Transfer) (seen comps : List PMsg),
+    ((completeAll now recs ms seen comps).2.2.1.map (fun c => (c.h.id, c.body))) =
+      comps.map (fun c => (c.h.id, c.body)) ++ deliveries recs (ms.map (fun m => (now, m)))
+  | [], recs, seen, comps => by simp [completeAll, deliveries]
+  | m :: r, recs, seen, comps => by
+    unfold completeAll
+    simp only [List.map_cons, deliveries]
+    have hp := completePack_no_panic now recs m
+    cases hc : completePack now recs m with
+    | mk recs' o =>
+      rw [hc] at hp
+      cases o with
+      | none => simpa using completeAll_deliveries now r recs' _ comps
+      | done data =>
+        simp only
+        rw [completeAll_deliveries now r recs' _ _]
+        simp
+      | panic => exact absurd rfl hp
+
+/-- the transfer table after a read, as a function of the flat message list -/
+def tableAfter : List Transfer → List (Nat × PMsg) → List Transfer
+  | recs, [] => recs
+  | recs, (now, m) :: r => tableAfter (completePack now recs m).1 r
+
+theorem completeAll_table (now : Nat) : ∀ (ms : List PMsg) (recs : List Transfer) (seen comps : List PMsg),
+    (completeAll now recs ms seen comps).1 = tableAfter recs (ms.map (fun m => (now, m)))
+  | [], recs, seen, comps => by simp [completeAll, tableAfter]
+  | m :: r, recs, seen, comps => by
+    unfold completeAll
+    simp only [List.map_cons, tableAfter]
+    have hp := completePack_no_panic now recs m
+    cases hc : completePack now recs m with
+    | mk recs' o =>
+      rw [hc] at hp
+      cases o with
+      | none => exact completeAll_table now r recs' _ _
+      | done data => exact completeAll_table now r recs' _ _
+      | panic => exact absurd rfl hp
+
+theorem deliveries_append : ∀ (a b : List (Nat × PMsg)) (recs : List Transfer),
+    deliveries recs (a ++ b) = deliveries recs a ++ deliveries (tableAfter recs a) b
+  | [], b, recs => by simp [deliveries, tableAfter]
+  | (now, m) :: r, b, recs => by
+    simp only [List.cons_append, deliveries, tableAfter]
+    cases hc : completePack now recs m with
+    | mk recs' o =>
+      cases o with
+      | none => simp only; exact deliveries_append r b recs'
+      | done data => simp only [List.cons_append]; rw [deliveries_append r b recs']
+      | panic => simp only; exact deliveries_append r b recs'
+
+/-- completions of a whole connection: the reads arrive at times `ts`, each read's messages go through `completeAll`
+(what `packageParse.parse` does), the table is carried from read to read -/
+def sessionCompletions : List Transfer → List (Nat × List PMsg) → List (Nat × Bytes)
+  | _, [] => []
+  | recs, (now, ms) :: r =>
+    let res := completeAll now recs ms [] []
+    res.2.2.1.map (fun c => (c.h.id, c.body)) ++ sessionCompletions res.1 r
+
+/-- the flat, timed message list of a session -/
+def flatTimed : List (Nat × List PMsg) → List (Nat × PMsg)
+  | [] => []
+  | (now, ms) :: r => ms.map (fun m => (now, m)) ++ flatTimed r
+
+/-- **Read boundaries do not matter for reassembly**: the completions of a connection are the `deliveries` of its flat
+message list — the same list whatever the segmentation (C04 `unpack_any_chunking`), with whatever arrival times; so
+`reassembly_exact` (stated for arbitrary times) applies to every segmentation of the stream. -/
+theorem session_is_flat : ∀ (reads : List (Nat × List PMsg)) (recs : List Transfer),
+    sessionCompletions recs reads = deliveries recs (flatTimed reads)
+  | [], _ => by simp [sessionCompletions, flatTimed, deliveries]
+  | (now, ms) :: r, recs => by
+    simp only [sessionCompletions, flatTimed]
+    rw [deliveries_append, completeAll_deliveries, completeAll_table, session_is_flat r]
+    simp
+
+end JT.C05
